@@ -16,6 +16,8 @@ NumRoundTrip == T.kind = "num" /\ NoPanic => T.ok /\ T.back_equal /\ T.eq_canon
 Trunc(tf, d) == [d EXCEPT !.s = IF tf \in {"tt:mm", "h:mm aa"} THEN 0 ELSE d.s, !.us = 0]
 Expected == IF T.fmt.iso THEN T.dt ELSE Trunc(T.fmt.tf, T.dt)
 DTRoundTrip == T.kind = "dt" /\ NoPanic => T.ok /\ T.parsed = Expected
+\* '=' between two date-times holds exactly when their canonical renderings coincide
+DTEqCanon == T.kind = "dt" /\ NoPanic /\ T.ok => T.eq_canon
 \* times of day: the canonical text shows microseconds (anything finer is cut, not rounded), the environment formats none
 TodExpected == IF T.fmt.iso THEN T.dt ELSE Trunc(T.fmt.tf, T.dt)
 TodRoundTrip == T.kind = "tod" /\ NoPanic => T.ok /\ T.parsed = TodExpected
@@ -23,7 +25,7 @@ DateRoundTrip == T.kind = "date" /\ NoPanic => T.ok /\ T.parsed = T.dt
 \* a JSON document read with parse_json and written with json() is JSON-equivalent to the original
 JsonRoundTrip == T.kind = "json" /\ NoPanic => T.ok /\ T.equiv
 InvC13 == /\ Check("C13.NumRoundTrip", NumRoundTrip) /\ Check("C13.DTRoundTrip", DTRoundTrip)
-          /\ Check("C13.TodRoundTrip", TodRoundTrip) /\ Check("C13.DateRoundTrip", DateRoundTrip)
+          /\ Check("C13.DTEqCanon", DTEqCanon) /\ Check("C13.TodRoundTrip", TodRoundTrip) /\ Check("C13.DateRoundTrip", DateRoundTrip)
           /\ Check("C13.JsonRoundTrip", JsonRoundTrip) /\ Check("C13.NoPanic", NoPanic)
 Accepted == TLCGet("stats").diameter = Len(Trace)
 =============================================================================
